@@ -90,6 +90,67 @@ pub fn run_workers<T: DeserializeOwned + Send + 'static>(
     Ok(results)
 }
 
+#[derive(Debug, Clone)]
+pub struct WorkerFailure {
+    pub argv: Vec<String>,
+    pub signal: Option<i32>,
+    pub code: Option<i32>,
+    pub output: String,
+}
+
+/// Like `run_workers`, but a worker that dies is reported per worker instead of failing the
+/// whole batch (a crash of the code under test inside a worker is a finding, not a harness error).
+pub fn run_workers_detailed<T: DeserializeOwned + Send + 'static>(
+    argvs: Vec<Vec<String>>,
+    with_shim: bool,
+) -> Vec<Result<T, WorkerFailure>> {
+    use std::os::unix::process::ExitStatusExt;
+    let mut handles = Vec::new();
+    for argv in argvs {
+        let shim = with_shim;
+        handles.push(std::thread::spawn(move || -> Result<T, WorkerFailure> {
+            let mut cmd = Command::new(self_exe());
+            cmd.args(&argv).stdin(Stdio::null()).stdout(Stdio::piped()).stderr(Stdio::piped());
+            if shim {
+                cmd.env("LD_PRELOAD", shim_path());
+            } else {
+                cmd.env_remove("LD_PRELOAD");
+            }
+            cmd.env_remove("VERIF_SHIM_PLAN");
+            let fail = |signal, code, output: String| WorkerFailure {
+                argv: argv.clone(),
+                signal,
+                code,
+                output,
+            };
+            let out = cmd.output().map_err(|e| fail(None, None, format!("cannot spawn worker: {e}")))?;
+            let stdout = String::from_utf8_lossy(&out.stdout).into_owned();
+            let stderr: String = String::from_utf8_lossy(&out.stderr).lines().rev().take(6).collect::<Vec<_>>().join(" | ");
+            if !out.status.success() {
+                return Err(fail(out.status.signal(), out.status.code(), stderr));
+            }
+            let line = stdout
+                .lines()
+                .find_map(|l| l.strip_prefix("RESULT "))
+                .ok_or_else(|| fail(None, out.status.code(), "no RESULT line".into()))?;
+            serde_json::from_str(line).map_err(|e| fail(None, out.status.code(), format!("result does not parse: {e}")))
+        }));
+    }
+    handles
+        .into_iter()
+        .map(|h| {
+            h.join().unwrap_or_else(|_| {
+                Err(WorkerFailure {
+                    argv: Vec::new(),
+                    signal: None,
+                    code: None,
+                    output: "worker reader panicked".into(),
+                })
+            })
+        })
+        .collect()
+}
+
 /// Split 0..n into `k` contiguous ranges.
 pub fn ranges(n: u64, k: usize) -> Vec<(u64, u64)> {
     let k = k.max(1) as u64;
